@@ -796,53 +796,61 @@ func (e *Engine) VerifyFunc(bc *BoundContract) (rep *FuncReport) {
 	return rep
 }
 
-// checkRecoverShape: the function's first instruction sequence defers a closure that calls recover()
-// unconditionally in its entry block and does not re-panic.
+// checkRecoverShape: the function defers a closure that calls recover() unconditionally in its entry block and does
+// not re-panic. Panics are contained from that defer statement onward (frame.armed); what runs before it is not.
 func checkRecoverShape(fn *ssa.Function) string {
 	if fn.Recover == nil {
 		return "function has no recover block"
 	}
-	for _, in := range fn.Blocks[0].Instrs {
-		d, ok := in.(*ssa.Defer)
-		if !ok {
-			if cl, isCall := in.(*ssa.Call); isCall {
-				if b, isB := cl.Call.Value.(*ssa.Builtin); isB && b.Name() == "ssa:deferstack" {
-					continue // bookkeeping of the SSA form, not a call of the program
-				}
-				return "a call precedes the deferred recover"
-			}
-			continue
-		}
-		mc, ok := d.Call.Value.(*ssa.MakeClosure)
-		var cf *ssa.Function
-		if ok {
-			cf = mc.Fn.(*ssa.Function)
-		} else if f, ok := d.Call.Value.(*ssa.Function); ok {
-			cf = f
-		} else {
-			return "first defer is not a function literal"
-		}
-		found := false
-		for _, in2 := range cf.Blocks[0].Instrs {
-			if c, ok := in2.(*ssa.Call); ok {
-				if b, ok := c.Call.Value.(*ssa.Builtin); ok && b.Name() == "recover" {
-					found = true
-				}
-			}
-		}
-		if !found {
-			return "deferred closure does not call recover() unconditionally"
-		}
-		for _, b := range cf.Blocks {
-			for _, in2 := range b.Instrs {
-				if _, ok := in2.(*ssa.Panic); ok {
-					return "deferred closure may re-panic"
-				}
-			}
-		}
-		return ""
+	if recoveringDefer(fn) == nil {
+		return "no deferred function literal that calls recover() unconditionally (and never re-panics)"
 	}
-	return "no defer in the entry block"
+	return ""
+}
+
+// recoveringDefer returns the first defer statement (in block order) whose function literal calls recover()
+// unconditionally in its entry block and contains no panic.
+func recoveringDefer(fn *ssa.Function) *ssa.Defer {
+	for _, blk := range fn.Blocks {
+		for _, in := range blk.Instrs {
+			d, ok := in.(*ssa.Defer)
+			if !ok {
+				continue
+			}
+			var cf *ssa.Function
+			if mc, ok := d.Call.Value.(*ssa.MakeClosure); ok {
+				cf, _ = mc.Fn.(*ssa.Function)
+			} else if f, ok := d.Call.Value.(*ssa.Function); ok {
+				cf = f
+			}
+			if cf == nil || len(cf.Blocks) == 0 {
+				continue
+			}
+			found := false
+			for _, in2 := range cf.Blocks[0].Instrs {
+				if c, ok := in2.(*ssa.Call); ok {
+					if b, ok := c.Call.Value.(*ssa.Builtin); ok && b.Name() == "recover" {
+						found = true
+					}
+				}
+			}
+			if !found {
+				continue
+			}
+			repanics := false
+			for _, b := range cf.Blocks {
+				for _, in2 := range b.Instrs {
+					if _, ok := in2.(*ssa.Panic); ok {
+						repanics = true
+					}
+				}
+			}
+			if !repanics {
+				return d
+			}
+		}
+	}
+	return nil
 }
 
 // SortedContracts returns bound contracts in a stable order.
